@@ -90,6 +90,12 @@ def explore(fn, start, is_atom, stop=frozenset(), max_leaves=2048):
                     seq = seq[:k + 1]
                     si = sj
                     continue
+            if rv2['k'] == 'ref' and rv2['place']['p'] in ([], ['deref']):      # `&v`, and the reborrow `&*r`
+                # `&v` handed to a predicate: what v holds on this path (references are transparent in the term language)
+                local = rv2['place']['l']
+                seq = seq[:k + 1]
+                si = sj
+                continue
             return fn.rvalue_terms(rv2, (blk_i, sj))
         return None
 
@@ -139,13 +145,30 @@ def explore(fn, start, is_atom, stop=frozenset(), max_leaves=2048):
                 return
             if k == 'call':
                 if not t['dest']['p']:
+                    ts = fn.call_terms(t, b)
+                    atom = None
+                    if len(ts) == 1:
+                        n = next(iter(ts))
+                        if n[0] == 'call' and len(n) > 2 and any(len(a) > 1 for a in n[2]) and len(n[2]) == len(t['args']):
+                            # a predicate over a value selected on the way here: on this path it is the value of the arm taken
+                            args = tuple(path_terms(o, (b, len(blk['stmts'])), order) or a for o, a in zip(t['args'], n[2]))
+                            n = n[:2] + (args,) + n[3:]
+                        if is_atom(n):
+                            atom = n
                     if t['dest']['l'] == 0:
-                        leaves.append((dict(val), ('ret', None)))
+                        if atom is None:
+                            leaves.append((dict(val), ('ret', None)))
+                        elif atom in val:
+                            leaves.append((dict(val), ('ret', val[atom])))
+                        else:
+                            for tv in (True, False):
+                                v2 = dict(val)
+                                v2[atom] = tv
+                                leaves.append((v2, ('ret', tv)))
                         return
                     env.pop(t['dest']['l'], None)
-                    ts = fn.call_terms(t, b)
-                    if len(ts) == 1 and is_atom(next(iter(ts))):
-                        env[t['dest']['l']] = ('a', next(iter(ts)), True)
+                    if atom is not None:
+                        env[t['dest']['l']] = ('a', atom, True)
                 if t['target'] is None:
                     leaves.append((dict(val), ('exit', None)))
                     return
